@@ -141,7 +141,14 @@ def scrypt(secret, salt, n, r, p=1, keylen=32):
         raise ValueError("keylen must be at least 1")
     if keylen > MAX_KEYLEN:
         raise ValueError("keylen too large, must be <= %d" % MAX_KEYLEN)
-    return _scrypt(secret, salt, n, r, p, keylen)
+    try:
+        return _scrypt(secret, salt, n, r, p, keylen)
+    except OverflowError as err:
+        # the builtin backend asks pbkdf2 for ``p * 128 * r`` bytes in one call,
+        # which is more than hashlib can produce once ``r * p >= 2**24``.
+        raise ValueError(
+            f"r * p too large for the {backend} scrypt backend: r={r!r}, p={p!r} ({err})"
+        ) from None
 
 
 def _load_builtin_backend():
